@@ -34,6 +34,7 @@ var accessorDirs = map[string]string{ // shim dir -> repo package dir
 	"replicarest":    "replica/rest",
 	"controllerrest": "controller/rest",
 	"sync":           "sync",
+	"util":           "util",
 	"app":            "app",
 }
 
@@ -98,6 +99,7 @@ func main() {
 			}
 		}
 	}
+	nosync := true
 	// virtual shim packages
 	for _, sp := range []string{"vtime"} {
 		ents, err := os.ReadDir(filepath.Join(*verif, "shim", sp))
@@ -127,6 +129,9 @@ func main() {
 			}
 		}
 	}
+	if nosync {
+		applyPerfPatches(*repo, *out, replace)
+	}
 	keys := make([]string, 0, len(replace))
 	for k := range replace {
 		keys = append(keys, k)
@@ -137,6 +142,41 @@ func main() {
 		die("%v", err)
 	}
 	fmt.Fprintf(os.Stderr, "gen: %d files rewritten (time->vtime), %d overlay entries\n", nrew, len(replace))
+}
+
+// perfPatch is a performance-only edit (it removes fsync/O_SYNC for engines that do not study durability; the harness
+// must opt in at run time by setting util.VerifNoSync).  If the text is not found exactly once the patch is skipped:
+// the build still works, only slower - so an edit of these very lines in /repo can never break a check.
+type perfPatch struct{ file, old, new string }
+
+var perfPatches = []perfPatch{
+	{"util/util.go", "func SyncDir(dir string) error {\n", "func SyncDir(dir string) error {\n\tif VerifNoSync {\n\t\treturn nil\n\t}\n"},
+	{"replica/replica.go", "os.O_RDWR|os.O_CREATE|os.O_TRUNC|os.O_SYNC, 0666)", "os.O_RDWR|os.O_CREATE|os.O_TRUNC|verifOSync(), 0666)"},
+}
+
+func applyPerfPatches(repo, out string, replace map[string]string) {
+	for _, pp := range perfPatches {
+		target := filepath.Join(repo, pp.file)
+		srcPath := target
+		if r, ok := replace[target]; ok {
+			srcPath = r
+		}
+		src, err := os.ReadFile(srcPath)
+		if err != nil {
+			fmt.Fprintf(os.Stderr, "gen: perf patch %s skipped: %v\n", pp.file, err)
+			continue
+		}
+		if strings.Count(string(src), pp.old) != 1 {
+			fmt.Fprintf(os.Stderr, "gen: perf patch %s skipped (text not found exactly once)\n", pp.file)
+			continue
+		}
+		dst := filepath.Join(out, pp.file)
+		os.MkdirAll(filepath.Dir(dst), 0755)
+		if err := writeIfChanged(dst, []byte(strings.Replace(string(src), pp.old, pp.new, 1))); err != nil {
+			die("%v", err)
+		}
+		replace[target] = dst
+	}
 }
 
 func writeIfChanged(p string, b []byte) error {
